@@ -57,7 +57,8 @@ Definition closed (te : tyenv) (funcs : list prov) : Prop :=
 (* two working lists that differ in include / cannotInclude marks only *)
 Definition same_but_marks (a b : prov) : Prop :=
   p_s a = p_s b /\ p_deps a = p_deps b /\ p_mcOut a = p_mcOut b /\ p_mcRet a = p_mcRet b /\
-  p_excluded a = p_excluded b /\ p_wanted a = p_wanted b.
+  p_excluded a = p_excluded b /\ p_wanted a = p_wanted b /\
+  p_downR a = p_downR b /\ p_upR a = p_upR b /\ p_bypassR a = p_bypassR b.
 
 Lemma same_but_marks_refl a : same_but_marks a a.
 Proof. repeat split. Qed.
@@ -66,7 +67,7 @@ Proof. repeat split. Qed.
 Lemma sbm_cannot b a : same_but_marks (set_cannot b a) a.
 Proof. repeat split. Qed.
 Lemma sbm_trans a b c : same_but_marks a b -> same_but_marks b c -> same_but_marks a c.
-Proof. intros (A1&A2&A3&A4&A5&A6) (B1&B2&B3&B4&B5&B6). repeat split; congruence. Qed.
+Proof. intros (A1&A2&A3&A4&A5&A6&A7&A8&A9) (B1&B2&B3&B4&B5&B6&B7&B8&B9). repeat split; congruence. Qed.
 
 Definition marks_rel (l l' : list prov) : Prop :=
   forall i, match getp l i, getp l' i with
